@@ -95,6 +95,18 @@ impl Position {
         }
     }
 
+    /// Move position inside given source text if it lies beyond the end of a line or of the text.
+    ///
+    /// The end of input has no characters of its own: a position there would otherwise point
+    /// at a line or column which does not exist.
+    #[must_use]
+    pub fn clamp_to(&self, source: &str) -> Position {
+        Position {
+            start: self.start.clamp_to(source),
+            end: self.end.clamp_to(source),
+        }
+    }
+
     #[must_use]
     pub fn union(&self, other: Position) -> Position {
         Position {
@@ -146,6 +158,23 @@ impl CaretPos {
             line: self.line,
             pos: self.pos + offset,
         }
+    }
+
+    #[must_use]
+    pub fn clamp_to(self, source: &str) -> CaretPos {
+        if self.line == 0 {
+            return self; // invisible
+        }
+
+        let lines: Vec<&str> = source.lines().collect();
+        let line = min(self.line, max(lines.len(), 1));
+        let len = lines.get(line - 1).map_or(0, |l| l.chars().count());
+        let pos = if line < self.line {
+            len + 1
+        } else {
+            max(1, min(self.pos, len + 1))
+        };
+        CaretPos { line, pos }
     }
 
     #[must_use]
